@@ -53,6 +53,57 @@ Lemma req_K_thm c0 ds p : rq_canon c0 -> Forall (fun d => hexdigit d = true) ds 
 Proof. intros Hc Hd Hp. exact (req_cmd_thm c0 (CmdK ds) p Hc Hd Hp). Qed.
 End Cmds.
 
+(* ------------------------------------------------------------------ encoder: instantiate the probe *)
+Lemma resp_min_size_le1 : resp_min_size <= 1.
+Proof. unfold resp_min_size, min_size. destruct resp_fixed; lia. Qed.
+
+(* for whatever the regenerated encoder supports: k >= resp_min_size (1 on the pinned tree, 0 with C20-F1 repaired) *)
+Lemma resp_stream_gen wvalid wv : 1 <= wvalid -> 7 <= wv -> forall c0 value k st r0 env,
+  rs_idle c0 -> resp_min_size <= k -> on st = true -> (Z.to_nat (2 * k + 4) <= ready_count env)%nat ->
+  let first := {| i_vin := value; i_size := k; i_start := st; i_ready := r0 |} in
+  exists pre post, env = pre ++ post /\
+    rs_xfers wvalid wv c0 (first :: pre) = response value (Z.to_nat k) /\
+    rs_idle (rs_iter wvalid wv c0 (first :: pre)).
+Proof. intros Hv Hw. exact (Resp.resp_stream_thm wvalid wv Hv Hw resp_fixed (CMDResponse_clock_ref wvalid wv)). Qed.
+
+Lemma resp_prefix_gen wvalid wv : 1 <= wvalid -> 7 <= wv -> forall c0 value k st r0 env,
+  rs_idle c0 -> resp_min_size <= k -> on st = true -> Forall (fun i => i_start i = 0) env ->
+  let first := {| i_vin := value; i_size := k; i_start := st; i_ready := r0 |} in
+  exists rest, rs_xfers wvalid wv c0 (first :: env) ++ rest = response value (Z.to_nat k).
+Proof. intros Hv Hw. exact (Resp.resp_prefix_thm wvalid wv Hv Hw resp_fixed (CMDResponse_clock_ref wvalid wv)). Qed.
+
+Lemma resp_idle_gen wvalid wv c i : rs_idle c -> i_start i = 0 ->
+  rs_step wvalid wv c i = c /\ xfer (rs_o c) (i_ready i) = [].
+Proof. exact (Resp.resp_idle_thm wvalid wv resp_fixed (CMDResponse_clock_ref wvalid wv) c i). Qed.
+
+Definition in0 (r : Z) : rs_in := {| i_vin := 999; i_size := 77; i_start := 0; i_ready := r |}.
+
+(* <C20-F1> *)
+(* pinned tree: size = 0 is not handled (finding C20-F1), the theorems carry the guard 1 <= k *)
+Lemma resp_stream_k wvalid wv : 1 <= wvalid -> 7 <= wv -> forall c0 value k st r0 env,
+  rs_idle c0 -> 1 <= k -> on st = true -> (Z.to_nat (2 * k + 4) <= ready_count env)%nat ->
+  let first := {| i_vin := value; i_size := k; i_start := st; i_ready := r0 |} in
+  exists pre post, env = pre ++ post /\
+    rs_xfers wvalid wv c0 (first :: pre) = response value (Z.to_nat k) /\
+    rs_idle (rs_iter wvalid wv c0 (first :: pre)).
+Proof. intros Hv Hw c0 value k st r0 env Hc Hk. apply resp_stream_gen; auto; pose proof resp_min_size_le1; lia. Qed.
+
+Lemma resp_prefix_k wvalid wv : 1 <= wvalid -> 7 <= wv -> forall c0 value k st r0 env,
+  rs_idle c0 -> 1 <= k -> on st = true -> Forall (fun i => i_start i = 0) env ->
+  let first := {| i_vin := value; i_size := k; i_start := st; i_ready := r0 |} in
+  exists rest, rs_xfers wvalid wv c0 (first :: env) ++ rest = response value (Z.to_nat k).
+Proof. intros Hv Hw c0 value k st r0 env Hc Hk. apply resp_prefix_gen; auto; pose proof resp_min_size_le1; lia. Qed.
+
+(* size = 0 (the padding outputs of createHILUART): the totalised model shifts left and streams '0's; the real
+   block raises ValueError("negative shift count").  Either way the response is not "=!" *)
+Lemma resp_size0_refuted :
+  exists value env, forall rest,
+    rs_xfers 1 8 rs_reset ({| i_vin := value; i_size := 0; i_start := 1; i_ready := 1 |} :: env) ++ rest <> response value 0.
+Proof.
+  exists 5, (map (fun _ => in0 1) (seq 0 8)). intros rest. vm_compute. intros H. discriminate H.
+Qed.
+(* </C20-F1> *)
+
 (* ------------------------------------------------------------------ instances (the hypotheses are satisfiable) *)
 (* the widths createHILUART uses for a DUT with 8 inputs / 4 outputs *)
 Definition W0 : rq_w := {| ww_ready := 1; ww_index_in := 3; ww_v_in := 32; ww_index_out := 2; ww_set_index_in := 1;
@@ -75,7 +126,6 @@ Lemma p0_cmds : map snd p0 = flat_map encode [CmdI [49; 65]; CmdX 10; CmdV [50; 
 Proof. split; [reflexivity|]. repeat constructor. Qed.
 
 (* encoder: value 0x1A5 as 4 nibbles, consumer ready every third cycle *)
-Definition in0 (r : Z) : rs_in := {| i_vin := 999; i_size := 77; i_start := 0; i_ready := r |}.
 Definition env0 : list rs_in := flat_map (fun _ => [in0 0; in0 0; in0 1]) (seq 0 16).
 Lemma resp_instance :
   rs_xfers 1 8 rs_reset ({| i_vin := 421; i_size := 4; i_start := 1; i_ready := 0 |} :: env0) = response 421 4 /\
@@ -85,15 +135,6 @@ Lemma reset_idle : rs_idle rs_reset.
 Proof. split; reflexivity. Qed.
 
 (* ------------------------------------------------------------------ refutations: the guards are needed *)
-(* size = 0 (the padding outputs of createHILUART): the totalised model shifts left and streams '0's; the real
-   block raises ValueError("negative shift count").  Either way the response is not "=!" *)
-Lemma resp_size0_refuted :
-  exists value env, forall rest,
-    rs_xfers 1 8 rs_reset ({| i_vin := value; i_size := 0; i_start := 1; i_ready := 1 |} :: env) ++ rest <> response value 0.
-Proof.
-  exists 5, (map (fun _ => in0 1) (seq 0 8)). intros rest. vm_compute. intros H. discriminate H.
-Qed.
-
 (* a producer that pulses valid for one cycle without waiting for ready loses characters: "I1=" with one idle
    cycle between the pulses produces no event at all *)
 Lemma req_without_handshake_refuted :
